@@ -45,7 +45,7 @@ type recSpec struct {
 	NoDef bool     `json:"no_default_alpn"`
 }
 
-var alpnChoices = [][]string{nil, {"h3"}, {"h2"}, {"h3", "h2"}, {"http/1.1"}, {"foo"}, {"h3-29", "h2"}} // "h3-29" (a draft version id) is not "h3"
+var alpnChoices = [][]string{nil, {"h3"}, {"h2"}, {"h3", "h2"}, {"http/1.1"}, {"foo"}, {"h3-29", "h2"}, {"H3"}, {"H3", "h2"}} // "h3-29" (a draft version id) is not "h3"; round 13: neither is "H3" (ALPN ids are octet strings compared exactly, RFC 7301 3.1; the selection and the record filter must agree on that)
 
 func recDomain() []recSpec {
 	var out []recSpec
